@@ -67,11 +67,13 @@ theorem nulls_first_emulation (nullsSmall desc : Bool) (x y : Option Int) :
 
 /-- the model writes exactly the emulated keys for MySQL and the native suffix for the others -/
 theorem mysql_nulls_last_form (e : Ex) :
-    rOrders .mysql true (.cons e .asc (some false) .nil) = rEx .mysql e ++ [S " IS NULL ASC, "] ++ rEx .mysql e ++ [S " ASC"] := by
+    rOrders .mysql true (.cons e .asc (some false) .nil) =
+      wrap (greater .mysql (shapeOf e) (.bin (.std 4))) (rEx .mysql e) ++ [S " IS NULL ASC, "] ++ rEx .mysql e ++ [S " ASC"] := by
   simp [rOrders, rOrderKw]
 
 theorem mysql_nulls_first_form (e : Ex) :
-    rOrders .mysql true (.cons e .desc (some true) .nil) = rEx .mysql e ++ [S " IS NULL DESC, "] ++ rEx .mysql e ++ [S " DESC"] := by
+    rOrders .mysql true (.cons e .desc (some true) .nil) =
+      wrap (greater .mysql (shapeOf e) (.bin (.std 4))) (rEx .mysql e) ++ [S " IS NULL DESC, "] ++ rEx .mysql e ++ [S " DESC"] := by
   simp [rOrders, rOrderKw]
 
 theorem native_nulls_form (d : Backend) (hd : d ≠ .mysql) (e : Ex) (first : Bool) :
